@@ -71,6 +71,21 @@ pub trait Read {
                     && final(self).rest() == old(self).rest().subrange(old(buf)@.len() as int, old(self).rest().len() as int),
                 Err(_) => old(self).eof_only() ==> old(self).rest().len() < old(buf)@.len(),
             };
+
+    /// std::io::Read::read: transfers SOME prefix of the remaining bytes, possibly fewer than `buf` holds (0 at the
+    /// end of the data); the rest of `buf` keeps its old contents.  Not used by the code as it stands; present so
+    /// that a change from read_exact to read is judged against the contracts instead of falling out of the subset.
+    fn read(&mut self, buf: &mut [u8]) -> (r: std::io::Result<usize>)
+        ensures
+            final(self).eof_only() == old(self).eof_only(),
+            final(buf)@.len() == old(buf)@.len(),
+            match r {
+                Ok(n) => n <= old(buf)@.len() && n <= old(self).rest().len()
+                    && final(buf)@.subrange(0, n as int) == old(self).rest().subrange(0, n as int)
+                    && final(buf)@.subrange(n as int, old(buf)@.len() as int) == old(buf)@.subrange(n as int, old(buf)@.len() as int)
+                    && final(self).rest() == old(self).rest().subrange(n as int, old(self).rest().len() as int),
+                Err(_) => true,
+            };
 }
 
 // ---- A4 / A6: std string functions without vstd specification --------------------------------
